@@ -5,6 +5,10 @@ import ParryModel.C16.Model
 
 * `triangulate n x0 y0 …`                         → `none` | `some k a0 b0 c0 a1 b1 c1 …`   (`TriMesh::from_polygon`)
 * `hertel_mehlhorn n x0 y0 … k a0 b0 c0 …`        → `m len0 i… len1 i… …`                  (`hertel_mehlhorn_idx`)
+* `hertel_mehlhorn_pts n x0 y0 … k a0 b0 c0 …`    → `m len0 x y … len1 x y … …`            (`hertel_mehlhorn`)
+* `decompose n x0 y0 …`                           → `none` | `cnone` | `shapes m (T a b c | P k points… normals…)*`
+                                                     (`Compound::decompose_trimesh(&TriMesh::from_polygon(..)?)`)
+* `decompose_tris n x0 y0 … k a0 b0 c0 …`         → same                (`Compound::decompose_trimesh(&TriMesh::new(..))`)
 
 Oracles (exact `Rat`, independent of the model): input classification (simple? orientation?) by exact segment
 predicates; output judged as a tiling: count, index range, every triangle counter-clockwise, Σ area = polygon area,
